@@ -55,6 +55,10 @@ BENIGN = {
     "core::str::<impl str>::parse": "returns Err on bad input",
     "std::sync::mpsc::Sender::<T>::send": "returns Err when the receiver is gone; never panics",
     "std::time::Instant::now": "no panic on supported platforms",
+    "std::sync::poison::rwlock::RwLock::<T>::read": "panics only if the calling thread already holds the lock; C15/T8 shows every table operation takes exactly one guard and releases it before returning",
+    "std::sync::poison::rwlock::RwLock::<T>::write": "panics only if the calling thread already holds the lock; C15/T8 shows every table operation takes exactly one guard and releases it before returning",
+    "alloc::slice::<impl [T]>::sort_by_cached_key": "may panic only if the key's Ord is not a total order; the keys are Evaluation(i32) / i32",
+    "alloc::slice::<impl [T]>::sort_by_key": "may panic only if the key's Ord is not a total order",
     "std::thread::join_handle::JoinHandle::<T>::join": "join itself panics only if a thread joins itself; the handles here are owned and joined by the UCI thread (the Err of a panicked thread is a separate unwrap site)",
     "std::time::Instant::elapsed": "monotonic clock; saturates since Rust 1.60",
 }
